@@ -15,6 +15,10 @@ The real-code runner of this module (`run_ops`) is shared with c03.py.
 Ops: `["write", k]` writes the dataset `w<k>`; `["write", k, kind]` with kind g / a / n creates the
 group `g<k>`, sets the root attribute `a<k>`, sets the attribute `a<k>` of the first child (root when
 there is none) — for the record model all of them are "a write with id k into the newest container".
+Optional keyword arguments: an `open` op may end with a dict `{"mf": <file name|None>, "bl": <bool>, "nomode": 1}` =
+`manifest_file=` (a path inside the directory), `allow_baseless=`, mode argument omitted (default `r`); `["commit", {"exts": {..}}]` =
+`commit_patch(manifest_exts=..)`; `["close", c]` = `close(commit=c)`, `["close", 1, "d"]` = `close()`, `["close", 1, "x"]` = `__exit__`
+(end of a `with` block). Model: `Model/RecordKw.lean` (driver lines `openk`, `commitk`).
 Class keys: `p` IH5Record, `m` IH5MFRecord, `p+<n>` / `m+<n>` subclasses that add n bytes to the
 documented `ub_exts` section of the user block on commit (for the model: `p` / `m`).
 """
@@ -36,7 +40,9 @@ LEAN = dict(
     modules=["MetadorModel.Props.C02"],
     theorems=[T + n for n in [
         "frame", "writes_only_uncommitted_or_fresh", "committed_step", "committed_frozen", "committed_frozen_between",
-        "sidecar_frozen", "snapshot_still_valid", "inv_run", "unsafe_w_can_modify"]],
+        "sidecar_frozen", "snapshot_still_valid", "inv_run", "unsafe_w_can_modify",
+        "kw_default", "frame_kw", "writes_only_uncommitted_or_fresh_kw", "committed_step_kw", "committed_frozen_kw",
+        "sidecar_frozen_kw", "snapshot_still_valid_kw", "inv_run_kw"]],
     drivers=["drv_rec"],
 )
 
@@ -143,6 +149,20 @@ def view_ids(rec):
 
 def write_op(k, kind="d"):
     return ["write", k] if kind == "d" else ["write", k, kind]
+
+
+def open_kw(op):
+    """the keyword-argument dict of an `open` op ({} when it has none)"""
+    return op[-1] if len(op) > 5 and isinstance(op[-1], dict) else {}
+
+
+def open_label(op):
+    """the generator's label of an explicit file list (None when there is none)"""
+    return op[5] if len(op) > 5 and isinstance(op[5], str) else None
+
+
+def commit_exts(op):
+    return op[1].get("exts") if len(op) > 1 and isinstance(op[1], dict) else None
 
 
 def do_write(rec, k, kind):
@@ -268,6 +288,7 @@ def run_ops(ops, exempt_after_w=True, keep=None):
     exempt = set()  # names excluded from the monitor (their record was truncated / deleted)
     commits = []  # (op index, [file names], dump, class key)
     last_cls = "p"
+    last_bl = False  # the handle was opened with allow_baseless=True (the snapshot oracle reopens the same way)
     last_files = []  # file names of the handle at the latest `close` op (probe ops of C03)
     try:
         before = snapshot(d)
@@ -286,7 +307,17 @@ def run_ops(ops, exempt_after_w=True, keep=None):
                             destructive = arg
                         target = Path(d) / arg if by == "n" else [Path(d) / a for a in arg]
                         last_cls = c
-                        rec = cls[c](target, mode)
+                        kw = open_kw(op)
+                        kwargs = {}
+                        if "mf" in kw:
+                            kwargs["manifest_file"] = None if kw["mf"] is None else Path(d) / kw["mf"]
+                        if "bl" in kw:
+                            kwargs["allow_baseless"] = bool(kw["bl"])
+                        last_bl = bool(kw.get("bl"))
+                        if kw.get("nomode") and mode == "r":
+                            rec = cls[c](target, **kwargs)
+                        else:
+                            rec = cls[c](target, mode, **kwargs)
                 elif kind == "write":
                     do_write(rec, op[1], op[2] if len(op) > 2 else "d")
                 elif kind == "read":
@@ -294,19 +325,29 @@ def run_ops(ops, exempt_after_w=True, keep=None):
                 elif kind == "create":
                     rec.create_patch()
                 elif kind == "commit":
-                    rec.commit_patch()
+                    if commit_exts(op) is not None:
+                        rec.commit_patch(manifest_exts=commit_exts(op))
+                    else:
+                        rec.commit_patch()
                 elif kind == "discard":
                     rec.discard_patch()
                 elif kind == "close":
                     if rec is not None and not rec._closed:
                         last_files = [p.name for p in rec.ih5_files]
-                    rec.close(commit=bool(op[1]))
+                    how = op[2] if len(op) > 2 else "c"
+                    if how == "d" and op[1]:
+                        rec.close()
+                    elif how == "x" and op[1]:
+                        rec.__exit__(None, None, None)
+                    else:
+                        rec.close(commit=bool(op[1]))
                 elif kind == "openperm":
                     _, c, mode, seed = op
                     if rec is not None and not rec._closed:
                         out = "busy"
                     else:
                         last_cls = c
+                        last_bl = False
                         rec = cls[c]([Path(d) / f for f in perm_by(last_files, seed)], mode)
                 elif kind == "restore":
                     # undo a probe: drop the patch its open created (if any), then close without commit — the
@@ -370,12 +411,12 @@ def run_ops(ops, exempt_after_w=True, keep=None):
                         exempt.discard(side)
             # ---- commit events: the file set + dump at that moment
             if out == "ok" and is_open and kind in ("commit",) and r.get("files"):
-                commits.append((i, list(r["files"]), r["full"], last_cls))
+                commits.append((i, list(r["files"]), r["full"], last_cls, last_bl))
             if (out == "ok" and kind == "close" and op[1] and len(recs) >= 2 and recs[-2].get("files") and "rw=1" in recs[-2]["h"]
                     and after.get(recs[-2]["files"][-1], ("", "?"))[1] == "c"):
-                commits.append((i, list(recs[-2]["files"]), recs[-2]["full"], last_cls))
+                commits.append((i, list(recs[-2]["files"]), recs[-2]["full"], last_cls, last_bl))
             if out == "ok" and kind == "merge" and r.get("full") is not None:
-                commits.append((i, [op[1] + ".ih5"], r["full"], last_cls))
+                commits.append((i, [op[1] + ".ih5"], r["full"], last_cls, last_bl))
             before = after
         # ---- snapshot oracle: the files named at each commit, as they are now, still open
         if rec is not None and not rec._closed:
@@ -384,7 +425,7 @@ def run_ops(ops, exempt_after_w=True, keep=None):
             except BaseException:  # noqa: BLE001
                 pass
         final = snapshot(d)
-        for (i, files, dmp, c) in commits:
+        for (i, files, dmp, c, bl) in commits:
             if any(f in exempt for f in files) or dmp is None:
                 continue
             if any(f not in final for f in files):
@@ -396,7 +437,8 @@ def run_ops(ops, exempt_after_w=True, keep=None):
                     if f + "mf.json" in final:
                         shutil.copy(os.path.join(d, f + "mf.json"), os.path.join(sd, f + "mf.json"))
                 try:
-                    with cls[c]([Path(sd) / f for f in files], "r") as q:
+                    # (a handle on patches without their base — `allow_baseless=True` — is reopened the same way)
+                    with cls[c]([Path(sd) / f for f in files], "r", **(dict(allow_baseless=True) if bl else {})) as q:
                         now = dump(q)
                     if now != dmp:
                         oracle.append(dict(kind="snapshot-shows-other-state", step=i, files=files, at_commit=dmp, now=now))
@@ -428,8 +470,10 @@ def tags_of(ops, recs):
     for op, r in zip(ops, recs):
         if r["out"] != "ok":
             tags.add("err:" + r["out"])
-            if op[0] == "open" and op[3] == "l" and len(op) > 5:
-                tags.add("list-%s-%s-refused" % (op[5], op[2]))
+            if op[0] == "open" and op[3] == "l" and open_label(op):
+                tags.add("list-%s-%s-refused" % (open_label(op), op[2]))
+            if op[0] == "open" and "mf" in open_kw(op):
+                tags.add("kw-manifest_file:%s:%s:%s-refused" % (open_kw(op).get("mfk", "?"), op[1][0], op[2]))
             continue
         k = op[0]
         if k in ("commit",) or (k == "close" and op[1]):
@@ -440,8 +484,17 @@ def tags_of(ops, recs):
             tags.add("write-kind-" + op[2])
         if k == "open":
             tags.add("open-%s-%s" % (op[2], op[3]))
-            if op[3] == "l" and len(op) > 5:
-                tags.add("list-%s-%s" % (op[5], op[2]))
+            if op[3] == "l" and open_label(op):
+                tags.add("list-%s-%s" % (open_label(op), op[2]))
+            kw = open_kw(op)
+            if "mf" in kw:
+                tags.add("kw-manifest_file:%s:%s:%s:%s" % (kw.get("mfk", "?"), op[1][0], op[2], op[3]))
+            if "bl" in kw:
+                tags.add("kw-allow_baseless=%s:%s:%s" % (bool(kw["bl"]), op[2], op[3]))
+                if kw["bl"] and ":0:" not in r["h"].split(",")[0]:
+                    tags.add("baseless-handle-%s" % op[2])
+            if kw.get("nomode"):
+                tags.add("kw-mode-omitted")
             if op[1][0] == "m":
                 tags.add("mfrecord")
             if cls_pad(op[1]) or "+" in op[1]:
@@ -454,9 +507,23 @@ def tags_of(ops, recs):
             tags.add("discard")
         if k == "close" and not op[1]:
             tags.add("close-nocommit")
+        if k == "close" and len(op) > 2:
+            tags.add("close-" + {"d": "default-argument", "x": "with-exit"}.get(op[2], op[2]))
+        if k == "commit" and commit_exts(op) is not None:
+            tags.add("kw-manifest_exts:" + last_open_cls(ops, op))
     if len({op[1][0] for op in ops if op[0] == "open"}) > 1:
         tags.add("mixed-class")
     return sorted(tags)
+
+
+def last_open_cls(ops, op):
+    c = "?"
+    for o in ops:
+        if o is op:
+            break
+        if o[0] in ("open", "openperm"):
+            c = o[1][0]
+    return c
 
 
 def impl(case):
@@ -470,12 +537,18 @@ def op_line(op):
     if k == "open":
         _, c, mode, by, arg = op[:5]
         c = c[0]  # subclasses with extra user-block content: the plain / manifest class of the model
+        kw = open_kw(op)
+        head = ["open", c, mode]
+        if "mf" in kw or "bl" in kw:
+            head = ["openk", c, mode, hx(kw.get("mf") or ""), "1" if kw.get("bl") else "0"]
         if by == "n":
-            return "open %s %s n %s" % (c, mode, hx(arg))
-        return " ".join(["open", c, mode, "l"] + [hx(a) for a in arg])
+            return " ".join(head + ["n", hx(arg)])
+        return " ".join(head + ["l"] + [hx(a) for a in arg])
     if k == "write":
         return "write %d" % op[1]
-    if k in ("read", "create", "commit", "discard"):
+    if k == "commit":
+        return "commitk" if commit_exts(op) is not None else "commit"
+    if k in ("read", "create", "discard"):
         return k
     if k == "close":
         return "close %d" % (1 if op[1] else 0)
@@ -566,7 +639,8 @@ class Sim:
         self.name = MAIN
         self.recs = {}  # record name -> dict(files=[(file name, patch index)], unc=last one uncommitted?)
         self.h = []  # (file name, patch index) of the handle
-        self.hfull = False  # the handle holds all files of record `name`
+        self.hfull = False  # the handle ends with the newest file of record `name` (and holds all of them, unless `baseless`)
+        self.baseless = False  # the handle holds a strict suffix of the record's files (allow_baseless=True)
 
     @property
     def exists(self):
@@ -577,10 +651,13 @@ class Sim:
         self.recs[name] = dict(files=[(name + ".ih5", 0)], unc=True)
         self.h = list(self.recs[name]["files"])
         self.hfull = True
+        self.baseless = False
         self.open, self.rw, self.allow = True, True, True
 
-    def opened_by_name(self, mode):
+    def opened_by_name(self, mode, start=0):
+        """`start` > 0: the files from position `start` on (a suffix, opened with allow_baseless=True)"""
         rec = self.recs[self.name]
+        self.baseless = start > 0
         self.hfull = True
         self.open = True
         self.allow = mode != "r"
@@ -590,7 +667,7 @@ class Sim:
                 rec["files"].append(self.next_file(rec["files"]))
                 rec["unc"] = True
             self.rw = True
-        self.h = list(rec["files"])
+        self.h = list(rec["files"])[start:]
 
     @staticmethod
     def next_file(files):
@@ -628,7 +705,7 @@ class Sim:
         self.rw = False
 
     def merged(self, t):
-        if self.open and not self.rw and self.h and t not in self.recs:
+        if self.open and not self.rw and self.h and t not in self.recs and not self.baseless:
             self.recs[t] = dict(files=[(t + ".ih5", self.h[-1][1])], unc=False, src=self.name)
             return True
         return False
@@ -673,7 +750,7 @@ def gen_file_list(rng, s):
         out = [t + ".ih5"] + (later[: rng.randrange(0, len(later) + 1)] if later else [])
         valid = True
     elif kind == "tail" and len(files) >= 2:
-        out = files[rng.randrange(1, len(files)):]
+        out = files[rng.randrange(1, len(files)):]  # (opens only with allow_baseless=True)
     elif kind == "missing":
         out = files + [rng.choice(["%s.p%d.ih5" % (s.name, 40 + rng.randrange(3)), "nope.ih5"])]
     elif kind == "empty":
@@ -686,22 +763,80 @@ def gen_file_list(rng, s):
     return kind, out, valid, complete
 
 
+MF_KINDS = [("newest", 5), ("committed", 1.5), ("older", 1), ("copy", 1.5), ("absent", 0.5), ("container", 0.3), ("none", 0.7)]
+EXTS = [{}, {"vt": 1}, {"vt": {"origin": "packer", "n": [1, 2, 3]}}, {"aa": "x", "bb": None}]
+
+
+def gen_open_kw(rng, s, mode, files=None, label=None, use_bl=True):
+    """Optional keyword arguments for a constructor call on record `s.name` (`files`: the explicit list, None = by name).
+
+    manifest_file= (only IH5MFRecord looks at it, and only when the newest container of the handle is committed and carries
+    the manifest extension; then the file must have the linked checksum):
+      newest    - the sidecar named after the newest container (= the default)
+      committed - the sidecar of the newest but one container (the one that counts when the newest is uncommitted)
+      older     - the sidecar of some other container of the record
+      copy      - the sidecar of a container the record was merged into (same bytes when merged at this patch level)
+      absent    - a name that does not exist;  container - a container file;  none - explicit None
+    allow_baseless= True / False (True is needed for a list without the base container, harmless otherwise)."""
+    rec = s.recs.get(s.name)
+    chain = [f for f, _ in rec["files"]] if rec else []
+    if files is not None:
+        order = {f: i for r_ in s.recs.values() for f, i in r_["files"]}
+        chain = sorted((f for f in files if f in order), key=lambda f: order[f]) or chain
+    kw = {}
+    if rng.random() < 0.75 and chain:
+        tot = sum(w for _, w in MF_KINDS)
+        x = rng.random() * tot
+        for kind, w in MF_KINDS:
+            x -= w
+            if x <= 0:
+                break
+        copies = [t for t, r_ in s.recs.items() if r_.get("src") == s.name]
+        if kind == "committed" and len(chain) >= 2:
+            kw["mf"] = chain[-2] + "mf.json"
+        elif kind == "older" and len(chain) >= 2:
+            kw["mf"] = rng.choice(chain[:-1]) + "mf.json"
+        elif kind == "copy" and copies:
+            kw["mf"] = rng.choice(copies) + ".ih5mf.json"
+        elif kind == "absent":
+            kw["mf"] = rng.choice(["nope.ih5mf.json", chain[-1] + ".json", "%s.p%d.ih5mf.json" % (s.name, 40 + rng.randrange(3))])
+        elif kind == "container":
+            kw["mf"] = rng.choice(chain)
+        elif kind == "none":
+            kw["mf"] = None
+        else:
+            kind, kw["mf"] = "newest", chain[-1] + "mf.json"
+        kw["mfk"] = kind
+    if use_bl and (label == "tail" or rng.random() < 0.3):
+        kw["bl"] = (rng.random() < 0.85) if label == "tail" else (rng.random() < 0.5)
+    if mode == "r" and rng.random() < 0.15:
+        kw["nomode"] = 1
+    return kw
+
+
 KINDS = [("d", 0.5), ("a", 0.25), ("g", 0.1), ("n", 0.15)]
 
 
-def gen_history(rng, n_ops, with_others=True, allow_merge=True, p_list=0.22, kinds=False, ext=False):
+def gen_history(rng, n_ops, with_others=True, allow_merge=True, p_list=0.22, kinds=False, ext=False, kw=0.0):
     """`kinds`: writes are datasets, groups, root attributes, attributes of a child (else datasets only);
-    `ext`: the record classes are subclasses with extra user-block content."""
-    ops = _gen_history(rng, n_ops, with_others, allow_merge, p_list, kinds)
+    `ext`: the record classes are subclasses with extra user-block content;
+    `kw`: share of the calls that carry optional keyword arguments (manifest_file=, allow_baseless=, mode omitted,
+    manifest_exts=, close() / __exit__ instead of close(commit=True))."""
+    ops = _gen_history(rng, n_ops, with_others, allow_merge, p_list, kinds, kw)
     if ext:
         m = {k: "%s+%d" % (k, rng.choice(pad_classes(k)) if rng.random() < 0.5 else gen_pad_len(rng, k)) for k in "pm"}
         ops = [[o[0], m[o[1]]] + list(o[2:]) if o[0] == "open" and rng.random() < 0.85 else o for o in ops]
     return ops
 
 
-def _gen_history(rng, n_ops, with_others, allow_merge, p_list, kinds):
+def _gen_history(rng, n_ops, with_others, allow_merge, p_list, kinds, kw=0.0):
     ops = []
     s = Sim()
+    # a handle on patches without their base shows a child of the base that got an attribute in a patch as an (empty)
+    # group: histories with allow_baseless=True do not write attributes of children
+    use_bl = kw > 0 and (not kinds or rng.random() < 0.5)
+    if kw > 0 and use_bl and kinds:
+        kinds = "no-n"
     if with_others and rng.random() < 0.7:
         names = rng.sample(OTHERS, rng.randrange(1, 4))
         ops += setup_ops(rng, names)
@@ -727,6 +862,9 @@ def _gen_history(rng, n_ops, with_others, allow_merge, p_list, kinds):
         if not s.open:
             if not s.exists:
                 ops.append(["open", c, rng.choice(["w", "x", "a", "w-", "a"]), "n", s.name])
+                if kw > 0 and rng.random() < kw * 0.5:
+                    ops[-1].append(rng.choice([{"mf": None, "mfk": "none"}, {"mf": "nope.ih5mf.json", "mfk": "absent"}, {"bl": True}, {"bl": False},
+                                               {"mf": s.name + ".ih5mf.json", "mfk": "newest", "bl": False}]))
                 s.created(s.name)
                 continue
             if r < 0.06 and merged:
@@ -737,6 +875,13 @@ def _gen_history(rng, n_ops, with_others, allow_merge, p_list, kinds):
                 label, fl, valid, complete = gen_file_list(rng, s)
                 mode = rng.choice(["r", "r+", "a", "r+", "a", "r"] if rng.random() < 0.93 else ["x", "w-"])
                 ops.append(["open", c, mode, "l", fl, label])
+                okw = gen_open_kw(rng, s, mode, fl, label, use_bl) if kw > 0 and rng.random() < (kw if label != "tail" else min(1.0, 2.5 * kw)) else {}
+                if okw:
+                    ops[-1].append(okw)
+                if label == "tail" and okw.get("bl") and mode not in ("x", "w-"):
+                    # a coherent chain without its base, up to the newest container: like the whole record
+                    s.opened_by_name(mode, start=len(s.recs[s.name]["files"]) - len(fl))
+                    continue
                 if mode in ("x", "w-") or not valid:
                     continue
                 if complete:
@@ -757,6 +902,10 @@ def _gen_history(rng, n_ops, with_others, allow_merge, p_list, kinds):
                 continue
             mode = rng.choice(["r", "r+", "a", "r+", "a", "x", "w-"] if r < 0.9 else ["r", "x"])
             ops.append(["open", c, mode, "n", s.name])
+            if kw > 0 and rng.random() < kw:
+                okw = gen_open_kw(rng, s, mode, None, None, use_bl)
+                if okw:
+                    ops[-1].append(okw)
             if mode in ("x", "w-"):
                 continue
             s.opened_by_name(mode)
@@ -786,10 +935,17 @@ def _gen_history(rng, n_ops, with_others, allow_merge, p_list, kinds):
                     x -= w
                     if x <= 0:
                         break
+                if wk == "n" and kinds == "no-n":
+                    wk = "a"
             ops.append(write_op(k, wk)); k += 1
         elif name == "commit":
-            ops.append(["commit"])
-            s.commit()
+            if kw > 0 and rng.random() < kw:
+                ops.append(["commit", {"exts": rng.choice(EXTS)}])
+                if [o[1][0] for o in ops if o[0] == "open"][-1:] == ["m"]:  # (the plain class refuses the keyword)
+                    s.commit()
+            else:
+                ops.append(["commit"])
+                s.commit()
         elif name == "discard":
             ops.append(["discard"])
             s.discard()
@@ -805,6 +961,8 @@ def _gen_history(rng, n_ops, with_others, allow_merge, p_list, kinds):
                 merged.append(t)
         elif name in ("close1", "close0"):
             ops.append(["close", 1 if name == "close1" else 0])
+            if name == "close1" and kw > 0 and rng.random() < kw:
+                ops[-1].append(rng.choice("dx"))
             s.close(name == "close1")
             if rng.random() < 0.15:
                 # operations on a closed handle
@@ -814,11 +972,16 @@ def _gen_history(rng, n_ops, with_others, allow_merge, p_list, kinds):
 
 START = [["open", None, "x", "n", MAIN], ["write", 1], ["commit"]]
 ALPHABET = ["create", "write", "commit", "discard", "reopen-r", "reopen-r+", "merge", "reopen-prefix"]
+# the calls with their optional keyword arguments
+ALPHABET_KW = ["reopen-r+-mf", "reopen-tail", "commit-exts"]
 
 
 def expand(seq, c):
     """`reopen-prefix`: close, then open the record's file list without its newest container (the state
-    at the previous commit) for patching, by explicit list; with a single container: the full list."""
+    at the previous commit) for patching, by explicit list; with a single container: the full list.
+    `reopen-r+-mf`: close, then reopen by name for patching with `manifest_file=` <sidecar of the newest container>.
+    `reopen-tail`: close, then open the file list without the base container for patching with `allow_baseless=True`
+    (a single container: the full list). `commit-exts`: `commit_patch(manifest_exts={..})`."""
     ops = [list(o) for o in START]
     ops[0][1] = c
     s = Sim()
@@ -842,6 +1005,20 @@ def expand(seq, c):
             ops += [["close", 1], ["open", c, "r+", "l", files[:-1] or files, "prefix" if len(files) > 1 else "full"], ["read"]]
             if len(files) == 1:
                 s.opened_by_name("r+")
+        elif a == "reopen-r+-mf":
+            s.close(True)
+            files = [f for f, _ in s.recs[MAIN]["files"]]
+            ops += [["close", 1], ["open", c, "r+", "n", MAIN, {"mf": files[-1] + "mf.json", "mfk": "newest"}], ["read"]]
+            s.opened_by_name("r+")
+        elif a == "reopen-tail":
+            s.close(True)
+            files = [f for f, _ in s.recs[MAIN]["files"]]
+            ops += [["close", 1, "x"], ["open", c, "r+", "l", files[1:] or files, "tail" if len(files) > 1 else "full", {"bl": True}], ["read"]]
+            s.opened_by_name("r+", start=1 if len(files) > 1 else 0)
+        elif a == "commit-exts":
+            ops.append(["commit", {"exts": {"vt": k}}])
+            if c == "m":
+                s.commit()
         elif a == "merge":
             ops.append(["merge", "bar%d" % nmerge]); nmerge += 1
     ops += [["read"], ["close", 1], ["open", c, "r", "n", MAIN], ["read"], ["close", 1]]
@@ -853,18 +1030,25 @@ def gen_cases(ctx):
     cases = []
     n = 150 if ctx.quick else 3000
     for _ in range(n):
-        cases.append(dict(kind="hist", ops=gen_history(rng, rng.randrange(8, 26), kinds=rng.random() < 0.5, ext=rng.random() < 0.2)))
+        # half of the histories use the optional keyword arguments of the API
+        cases.append(dict(kind="hist", ops=gen_history(rng, rng.randrange(8, 26), kinds=rng.random() < 0.5, ext=rng.random() < 0.2,
+                                                       kw=rng.choice([0.0, 0.0, 0.3, 0.6]))))
+    kwspace = [seq for l in range(1, 4) for seq in itertools.product(ALPHABET + ALPHABET_KW, repeat=l) if set(seq) & set(ALPHABET_KW)]
     if ctx.quick:
         # a sample of the short-sequence space
         space = [seq for l in range(1, 4) for seq in itertools.product(ALPHABET, repeat=l)]
-        for seq in rng.sample(space, 40):
+        for seq in rng.sample(space, 30) + rng.sample(kwspace, 20):
             cases.append(dict(kind="seq", ops=expand(seq, rng.choice("pm"))))
     else:
         for l in range(0, 5):
             for seq in itertools.product(ALPHABET, repeat=l):
                 for c in "pm":
                     cases.append(dict(kind="seq", ops=expand(seq, c)))
+        for seq in kwspace:
+            for c in "pm":
+                cases.append(dict(kind="seq", ops=expand(seq, c)))
         ctx.exhaustive_spaces.append("all call sequences of length <= 4 over {create_patch, write, commit_patch, discard_patch, close+reopen(r), close+reopen(r+), close+reopen(file list without the newest container, r+), merge_files} after a committed base, both record classes")
+        ctx.exhaustive_spaces.append("all call sequences of length <= 3 over these and {close+reopen(r+, manifest_file=<sidecar of the newest container>), close+reopen(file list without the base, r+, allow_baseless=True), commit_patch(manifest_exts=..)} after a committed base, both record classes")
     return cases
 
 
@@ -874,10 +1058,13 @@ def run(ctx):
                 "discard_patch (writes = datasets, groups, root attributes, attributes of a child; classes also subclasses with extra ub_exts content), "
                 "close(commit yes/no), reopen by name or by an explicit file list (strict prefixes = older commit states, permutations, "
                 "selections with gaps / without base / with foreign or missing files, merged container + later patches of its source) in every "
-                "mode, merge_files into fresh/existing/own names, calls on closed handles; "
+                "mode, merge_files into fresh/existing/own names, calls on closed handles; in half of the histories the calls carry their optional keyword "
+                "arguments with legal and illegal values, both classes, every mode, by name and by list: manifest_file= (sidecar of the newest / newest "
+                "committed / an older container, the byte-identical sidecar of a merged copy, absent file, a container, None), allow_baseless= "
+                "(True/False; True also on lists without the base container), mode omitted, commit_patch(manifest_exts=..), close() / __exit__; "
                 "(seq) short call sequences after a committed base. After every call every file is hashed. Non-trivial = tagged: "
                 "write/create/discard/merge after a commit, continuing an uncommitted container, merge, discard, close without commit, each kind of "
-                "explicit file list per mode (accepted / refused), "
+                "explicit file list per mode (accepted / refused), each keyword argument per value class / record class / mode (accepted / refused), "
                 "IH5MFRecord, mixed classes, each error class.")
     ctx.assumptions += [
         "sha256 of a container payload is modelled as the payload itself (collision-free digest)",
